@@ -837,6 +837,89 @@ func checkC12(c *Ctx) {
 		c.Floor("histories_with_overlapping_clients", 100)
 		c.Floor("reads_with_version", 500)
 	}
+	// several goroutines write the same Spec name at the same time (one cache, or two
+	// caches on the same directory): every write succeeds, and whoever looks finds
+	// one writer's complete Spec
+	if c.replayCase == "" || strings.HasPrefix(c.replayCase, "writers") {
+		c.RunCases("writers", c.pick(6, 40), 3, func(cs *Case) {
+			r := cs.R
+			root := filepath.Join(c.Scratch, sanitize(cs.Name))
+			must(os.MkdirAll(root, 0o755))
+			defer os.RemoveAll(root)
+			c1, _ := cdi.NewCache(cdi.WithSpecDirs(root), cdi.WithAutoRefresh(false))
+			c2 := c1
+			if chance(r, 50) {
+				c2, _ = cdi.NewCache(cdi.WithSpecDirs(root), cdi.WithAutoRefresh(chance(r, 50)))
+				defer releaseCache(c2)
+			}
+			name := "same." + pickStr(r, "json", "yaml")
+			var wg sync.WaitGroup
+			var first atomic.Pointer[string]
+			fail := func(format string, a ...any) {
+				m := fmt.Sprintf(format, a...)
+				first.CompareAndSwap(nil, &m)
+			}
+			nw := 4 + r.Intn(5)
+			for g := 0; g < nw; g++ {
+				wg.Add(1)
+				go func(g int) {
+					defer wg.Done()
+					cache := c1
+					if g%2 == 1 {
+						cache = c2
+					}
+					for k := 0; k < 150 && first.Load() == nil; k++ {
+						if err := cache.WriteSpec(c12VersionSpec(g*1000+k), name); err != nil {
+							fail("WriteSpec(%s) by writer %d fails while %d goroutines write that name: %v", name, g, nw, err)
+							return
+						}
+						c.Count("concurrent_writes_of_one_name", 1)
+					}
+				}(g)
+			}
+			stop := make(chan struct{})
+			var rg sync.WaitGroup
+			rg.Add(1)
+			go func() {
+				defer rg.Done()
+				reader, _ := cdi.NewCache(cdi.WithSpecDirs(root), cdi.WithAutoRefresh(false))
+				for {
+					select {
+					case <-stop:
+						return
+					default:
+					}
+					reader.Refresh()
+					if errs := reader.GetErrors(); len(errs) > 0 {
+						fail("a cache refreshed while %d goroutines write %s finds a file in error: %v", nw, name, errs)
+						return
+					}
+					if devs := reader.ListDevices(); len(devs) > 0 {
+						vs := map[string]bool{}
+						for _, q := range devs {
+							if d := reader.GetDevice(q); d != nil {
+								for _, e := range d.ContainerEdits.Env {
+									vs[e[strings.LastIndexByte(e, '=')+1:]] = true
+								}
+							}
+						}
+						if len(vs) > 1 {
+							fail("a cache refreshed while %d goroutines write %s lists devices of several writers at once: %v", nw, name, vs)
+							return
+						}
+					}
+					c.Count("refreshes_during_concurrent_writes", 1)
+				}
+			}()
+			wg.Wait()
+			close(stop)
+			rg.Wait()
+			if m := first.Load(); m != nil {
+				cs.Violation("concurrent-writers", nil, *m, nil)
+			}
+		})
+		c.Floor("concurrent_writes_of_one_name", 1000)
+	}
 	// concurrent first use of the default cache in fresh (race-built) processes
 	if c.replayCase == "" || strings.HasPrefix(c.replayCase, "first-use") {
 		exe, _ := os.Executable()
